@@ -52,7 +52,16 @@ pub fn solve_real_lp_problem_clarabel(lp: &LinearModel) -> Result<LpSolution<f64
             got: invalid_variables,
         });
     }
-    solve_with_good_lp(
+    if lp.variables().is_empty() && lp.constraints().is_empty() {
+        // nothing to hand to the backend (it cannot factorise an empty system):
+        // the constant objective is the answer
+        return Ok(LpSolution::new(
+            vec![],
+            lp.objective_offset(),
+            indexmap::IndexMap::new(),
+        ));
+    }
+    let solution = solve_with_good_lp(
         lp,
         ::good_lp::clarabel,
         |model, _| Ok(model),
@@ -80,8 +89,17 @@ pub fn solve_real_lp_problem_clarabel(lp: &LinearModel) -> Result<LpSolution<f64
                 );
                 return match solve_real_lp_problem_clarabel(&feasibility) {
                     Err(SolverError::Infeasible) => Err(SolverError::Infeasible),
-                    _ => Err(SolverError::Unbounded),
+                    Ok(_) => Err(SolverError::Unbounded),
+                    // the feasibility run gave no answer either: nothing is known
+                    Err(error) => Err(error),
                 };
+            }
+            // a reduced-accuracy stop is not an answer: on degenerate systems the
+            // point it carries can be far from any optimum
+            if matches!(solution.inner().status, SolverStatus::AlmostSolved) {
+                return Err(SolverError::Other(
+                    "Clarabel stopped with reduced accuracy".to_string(),
+                ));
             }
             Ok(())
         },
@@ -89,5 +107,48 @@ pub fn solve_real_lp_problem_clarabel(lp: &LinearModel) -> Result<LpSolution<f64
             let dual = solution.compute_dual();
             collect_good_lp_duals(dual, references)
         },
-    )
+    )?;
+    // the interior point method can stop on a point that is not a solution at
+    // all (rank-deficient or inconsistent equality systems): an answer is only
+    // passed on if it satisfies the rows and the bounds of the model
+    let values = lp
+        .variables()
+        .iter()
+        .map(|name| solution.value_of(name).unwrap_or(f64::NAN))
+        .collect::<Vec<_>>();
+    let satisfied = lp.constraints().iter().all(|constraint| {
+        let (lhs, scale) = constraint
+            .coefficients()
+            .iter()
+            .zip(&values)
+            .fold((0.0, 0.0_f64), |(sum, scale), (coefficient, value)| {
+                (sum + coefficient * value, scale + (coefficient * value).abs())
+            });
+        // relative to the right-hand side, with a small allowance for the
+        // round-off of the products themselves
+        let tolerance = 1e-6 * (1.0 + constraint.rhs().abs()) + 1e-12 * scale;
+        match constraint.constraint_type() {
+            crate::math::Comparison::LessOrEqual | crate::math::Comparison::Less => {
+                lhs <= constraint.rhs() + tolerance
+            }
+            crate::math::Comparison::GreaterOrEqual | crate::math::Comparison::Greater => {
+                lhs >= constraint.rhs() - tolerance
+            }
+            crate::math::Comparison::Equal => (lhs - constraint.rhs()).abs() <= tolerance,
+        }
+    }) && lp.variables().iter().zip(&values).all(|(name, value)| {
+        let (lower, upper) = match lp.domain().get(name).map(|variable| variable.get_type()) {
+            Some(VariableType::Real(lower, upper)) => (*lower, *upper),
+            Some(VariableType::NonNegativeReal(lower, upper)) => (lower.max(0.0), *upper),
+            _ => (f64::NEG_INFINITY, f64::INFINITY),
+        };
+        let tolerance = 1e-6 * (1.0 + value.abs());
+        value.is_finite() && *value >= lower - tolerance && *value <= upper + tolerance
+    });
+    if !satisfied {
+        return Err(SolverError::Other(
+            "Clarabel returned a point that violates the model".to_string(),
+        ));
+    }
+    Ok(solution)
 }
